@@ -514,6 +514,32 @@ Plan gen(uint64_t seed, int tier) {
     if (r.chance(0.1)) { streams = r.pick({-1, 0, 255, 256}); }
     p.ops.push_back(mkop("CREATE", {which, fs, ch, app, family, streams, coupled, (int64_t)r.range(0, 1 << 20)}));
   }
+  if (r.chance(0.1)) {
+    // channel-switch sessions: "a forced channel count changed mid-stream takes effect within three packets" - a stereo encoder settled
+    // in stereo, then FORCE_CHANNELS(1) (and back, and again) with the other settings left alone for at least four packets after each
+    // change; long (multi-frame) packets and speech-friendly settings over-represented, since the SILK layer's two-frame stereo-to-mono
+    // hand-over lives there
+    p.ops.push_back(mkop("NEW", {0, r.range(1, 4), 2, r.range(0, 1), 0, r.range(0, 9), (int64_t)r.range(1, 1 << 30)}));
+    p.ops.push_back(mkop("SRC", {r.pick({(int)SRC_VOICED, (int)SRC_STEREO, (int)SRC_MUSIC, (int)SRC_NOISE, (int)SRC_BURSTYSTEREO, (int)SRC_STEADYVOICED}), r.pick({110, 220, 440, 1000}), r.pick({300, 500, 900}), r.range(1, 1000), r.range(0, 1000)}));
+    if (r.chance(0.5)) p.ops.push_back(mkop("CTL", {9, r.pick({1, 5}), 0}));          // SIGNAL voice / music
+    if (r.chance(0.4)) p.ops.push_back(mkop("CTL", {0, r.range(1, 5), 0}));            // MAX_BANDWIDTH
+    if (r.chance(0.3)) p.ops.push_back(mkop("CTL", {6, r.pick({1, 5}), 0}));          // DTX
+    if (r.chance(0.3)) p.ops.push_back(mkop("CTL", {3, r.range(1, 5), 0}));            // COMPLEXITY
+    if (r.chance(0.3)) p.ops.push_back(mkop("CTL", {1, r.pick({1, 5}), 0}));          // VBR
+    p.ops.push_back(mkop("BITRATE", {15, r.pick({12000, 16000, 24000, 32000, 40000, 48000, 64000, 96000})}));
+    if (r.chance(0.5)) p.ops.push_back(mkop("CTL", {8, 5, 0}));                         // FORCE_CHANNELS(2) first
+    int fidx = r.weighted({0, 1, 1, 3, 4, 3, 2, 1, 2});
+    int rounds = (int)r.range(1, tier ? 4 : 2);
+    for (int i = (int)r.range(2, 8); i > 0; i--) p.ops.push_back(mkop("ENC", {fidx, 1500, r.range(0, 2)}));
+    for (int k = 0; k < rounds; k++) {
+      p.ops.push_back(mkop("CTL", {8, 1, 0}));                                          // FORCE_CHANNELS(1)
+      for (int i = (int)r.range(4, 8); i > 0; i--) p.ops.push_back(mkop("ENC", {fidx, 1500, r.range(0, 2)}));
+      p.ops.push_back(mkop("CTL", {8, r.pick({5, 7}), 0}));                             // back to 2 / AUTO
+      if (r.chance(0.3)) fidx = r.weighted({0, 1, 1, 3, 4, 3, 2, 1, 2});
+      for (int i = (int)r.range(4, 8); i > 0; i--) p.ops.push_back(mkop("ENC", {fidx, 1500, r.range(0, 2)}));
+    }
+    return p;
+  }
   int kind = r.weighted({8, 3, 1, 4, 2, 1});
   int ek = kind % 3, ch = 1, family = 0;
   if (ek == 0) ch = (int)r.range(1, 2);
